@@ -168,6 +168,17 @@ func (mon *vfc17Monitor) hook(point string, a, b any) {
 				}
 			}
 			h[m] = true
+		} else {
+			// the matcher keeps using a buffer it already returned: it shares it with whoever holds it now
+			for other := range mon.holders[p] {
+				os := mon.ms[other]
+				if other != m && os.tag != st.tag && os.tag != "" && st.tag != "" {
+					mon.viol = append(mon.viol, vfc17Violation{
+						fp:   "shardbuf-used-after-release-while-held-by-another-request",
+						what: "a shard matcher still uses a buffer it already returned to the pool while a live matcher of another request holds the same buffer",
+						tags: []string{st.tag, os.tag}, log: append(append([]string{}, st.log...), os.log...)})
+				}
+			}
 		}
 	case "shardbuf.put":
 		mon.puts++
@@ -252,7 +263,7 @@ func TestVF_C17(t *testing.T) {
 		"evaluation = one request; distinct = (strategy, stores, sharding mask, shard parameters, way of ending); non-trivial = the request released at least one pooled buffer; signature = order of use/put events by request")
 	r.Assume("a ShardMatcher is live from its first observed use until its first put; requests are told apart by a tag label the harness adds to ShardInfo.Labels (read by reflection from the matcher)")
 	r.Assume("buffers that are never returned (stream open error) are not a violation: the statement says at most once")
-	groups := r.N(110, 5000)
+	groups := r.N(110, 2500)
 	r.Require(int64(groups*6), groups)
 
 	mon := vfc17NewMonitor()
